@@ -776,6 +776,44 @@ def add_history(rng, case):
     return case
 
 
+def same_size_variant(rng, raw):
+    """a screen of exactly the same shape: rows permuted, sample and plate labels permuted among themselves, observation values shuffled"""
+    n = len(raw["snames"])
+    order = list(range(n))
+    rng.shuffle(order)
+    sm = sorted(set(raw["snames"]))
+    pm = sorted(set(raw["pnames"]))
+    smap = dict(zip(sm, rng.sample(sm, len(sm))))
+    pmap = dict(zip(pm, rng.sample(pm, len(pm))))
+    obs = list(raw["obs"])
+    rng.shuffle(obs)
+    mask = raw["mask"]
+    return dict(ctrl=raw["ctrl"], arity=raw["arity"], tnames=[list(raw["tnames"][i]) for i in order], tdoses=[list(raw["tdoses"][i]) for i in order],
+                snames=[smap[raw["snames"][i]] for i in order], pnames=[pmap[raw["pnames"][i]] for i in order], obs=obs,
+                mask=None if mask is None else [mask[i] for i in order], tmap=None, smap=None)
+
+
+def add_temporaries(rng, case):
+    case["raw"]["tmap"] = case["raw"]["smap"] = None
+    case["temps"] = [same_size_variant(rng, case["raw"]) for _ in range(5)]
+    return case
+
+
+def d_wide(rng, kind):
+    """integer-width boundaries: 127/128/129 or 255/256/257 generated plates, hold-out on a plate of 255..257 rows in a screen of > 257 rows"""
+    samples = _samples(rng, rng.randint(2, 3))
+    if kind in ("seg8", "seg9"):
+        n = rng.choice([128, 129]) if kind == "seg8" else rng.choice([257, 258, 260])
+        rows = [(samples[i % len(samples)], "pl0", False) for i in range(n)] + [(samples[0], "pl1", True)] * rng.randint(0, 2)
+        raw = raw_from_layout(rng, rows, arity=2)
+        return {"op": "gen-seg", "params": {"max": 1}, "raw": raw, "npseed": rng.randrange(2 ** 31)}
+    big = rng.choice([255, 256, 257])
+    rows = [(rng.choice(samples), "pl0", False) for _ in range(big)] + [(rng.choice(samples), "pl1", False) for _ in range(rng.choice([127, 128, 129]))]
+    rows += [(samples[0], "pl2", True)] * rng.randint(1, 3)
+    raw = raw_from_layout(rng, rows, arity=2)
+    return {"op": "ho-bal", "params": {"fraction": rng.choice([0.5, 0.75, 1.0, 0.9])}, "raw": raw, "npseed": rng.randrange(2 ** 31)}
+
+
 def directed_cases(rng, mult):
     """[(family, case)]"""
     out = []
@@ -807,6 +845,12 @@ def directed_cases(rng, mult):
     for _ in range(1 * mult):
         out.append(("ho-permuted-maps", d_holdout_ids(rng, "ho-rand")))
     out.append(("seg-101", d_seg101(rng)))
+    out.append(("wide-seg", d_wide(rng, "seg8")))
+    out.append(("wide-seg", d_wide(rng, "seg9")))
+    out.append(("wide-holdout", d_wide(rng, "ho")))
+    for op in OPS:
+        for _ in range(mult):
+            out.append(("temporaries", add_temporaries(rng, gen_case(rng, op))))
     for i, op in enumerate(OPS):
         out.append(("falsy", d_falsy(rng, op)))
         c = gen_case(rng, op)
@@ -829,6 +873,11 @@ def build_work(raw, layout=None):
     if not layout:
         return S.build(raw)
     from batchie.data import Screen
+    return Screen(**screen_kwargs(raw, layout))
+
+
+def screen_kwargs(raw, layout=None):
+    """constructor arguments for the raw screen (all arrays allocated here, so that `Screen(**kw)` itself allocates the instance first)"""
     n, a = len(raw["snames"]), raw["arity"]
 
     def lay(x):
@@ -858,7 +907,7 @@ def build_work(raw, layout=None):
         kw["treatment_mapping"] = (np.array(raw["tmap"][0], dtype=str), np.array(raw["tmap"][1], dtype=float), np.array(raw["tmap"][2], dtype=int))
     if raw.get("smap") is not None:
         kw["sample_mapping"] = (np.array(raw["smap"][0], dtype=str), np.array(raw["smap"][1], dtype=int))
-    return Screen(**kw)
+    return kw
 
 
 def make_call(case):
@@ -934,6 +983,7 @@ class Outcome:
         self.rng = None
         self.pops = []
         self.parent_err = None
+        self.address_reused = False
         self.history = []    # findings of the history run (object reuse / input mutation / result aliasing): (what, detail)
 
 
@@ -952,10 +1002,17 @@ def _guarded(fn, screen, rng):
 
 
 def execute(case):
-    """run the case on the real code.  With `case["hist"]` (a second raw screen) the call is embedded in a history on ONE
-    operation object:  op(warm) ; op(input) [= the result that is judged and compared with the model] ; op(input) again
-    -- the input must be bit-identical afterwards, the judged result must not change when later calls run,
-    and it must equal the result of a fresh object on a fresh copy of the input with the same generator seed."""
+    """run the case on the real code.
+
+    `case["hist"]` (a second raw screen): the call is embedded in a history on ONE operation object:
+        op(warm, seed+1) ; op(a fresh copy of the input, seed+7) ; op(input, seed) [judged, compared with the model] ; op(input, seed+2)
+    the input must be bit-identical afterwards, the judged result must not change when the later call runs, and it must equal
+    -- output, draw trace, heap trace and final generator state -- what a fresh object gives on a fresh copy of the input with the
+    same seed (so a per-object cache that skips a draw when the same screen comes back with ANOTHER generator shows).
+
+    `case["temps"]` (raw screens of the same size as the input): the same object is first called on each of them built as a
+    TEMPORARY (only the result is kept), then on the input, also a temporary -- CPython reuses the freed addresses, so a memo keyed
+    by `id(screen)` (+ size) hands back another screen's result."""
     o = Outcome()
     try:
         work = build_work(case["raw"], case.get("layout"))
@@ -964,6 +1021,26 @@ def execute(case):
         o.parent_err = e
         return o
     call = make_call(case)
+    if case.get("temps"):
+        from batchie.data import Screen
+        del work
+        kept, seen_ids = [], set()
+        try:
+            kws = [screen_kwargs(r) for r in case["temps"]] + [screen_kwargs(case["raw"], case.get("layout"))]
+            scr = Screen(**kws[0])
+            for kw in kws[1:]:
+                seen_ids.add(id(scr))
+                kept.append(_guarded(call, scr, RecRng(case["npseed"]))[0])
+                del scr                 # the temporary dies ...
+                scr = Screen(**kw)      # ... and the next screen is allocated at once: CPython hands out the freed address again
+        except Exception as e:
+            o.parent_err = e
+            return o
+        o.address_reused = id(scr) in seen_ids
+        rng = RecRng(case["npseed"])
+        o.rng = rng
+        o.out, o.err, o.pops = _guarded(call, scr, rng)
+        return o
     hist = case.get("hist")
     if hist is not None:
         try:
@@ -972,6 +1049,7 @@ def execute(case):
             warm = None
         if warm is not None:
             _guarded(call, warm, RecRng(case["npseed"] + 1))
+        _guarded(call, build_work(case["raw"], case.get("layout")), RecRng(case["npseed"] + 7))
     before = snapshot(work)
     rng = RecRng(case["npseed"])
     o.rng = rng
@@ -981,7 +1059,8 @@ def execute(case):
         o.history.append(("the operation modified its input screen in place", d))
     if hist is not None:
         out_snap = snapshot(o.out)
-        canon = impl_canon(case, o)
+        trace = lambda oo: (impl_canon(case, oo), repr(oo.rng.log), list(oo.pops), repr(oo.rng.g.bit_generator.state))
+        mine = trace(o)
         _guarded(call, work, RecRng(case["npseed"] + 2))
         if o.out is not work:
             d = snap_diff(out_snap, snapshot(o.out))
@@ -993,9 +1072,11 @@ def execute(case):
         fresh = Outcome()
         fresh.rng = RecRng(case["npseed"])
         fresh.out, fresh.err, fresh.pops = _guarded(make_call(case), build_work(case["raw"], case.get("layout")), fresh.rng)
-        fc = impl_canon(case, fresh)
-        if fc != canon:
-            o.history.append(("a reused operation object answers differently from a fresh one", {"reused": canon[:300], "fresh": fc[:300]}))
+        theirs = trace(fresh)
+        if theirs != mine:
+            which = [n for n, a, b in zip(("output", "draw trace", "heap trace", "generator state"), mine, theirs) if a != b]
+            o.history.append(("a reused operation object answers differently from a fresh one",
+                              {"differs in": which, "reused": mine[0][:300], "fresh": theirs[0][:300]}))
     return o
 
 
@@ -1127,42 +1208,58 @@ def is_control(raw, nm, d):
     return nm == raw["ctrl"] or d <= 0
 
 
+EXPERIMENT_ATTRS = ("_observations", "_observation_mask", "_sample_names", "_treatment_names", "_treatment_doses")
+
+
+def tie(res, prop, case, what, detail):
+    """something the harness pins down that the property TEXT does not state (HARDENING item 14): reported as a broken tie
+    (`no-failing-input-found`), never as a violation with a replay"""
+    res.disagree("%s:%s:%s" % (prop, case["op"], what), case, str(detail)[:600], "harness expectation beyond the property text: " + what)
+
+
 def oracle_common(res, case, o, prop):
+    """history findings and result attributes.  Only ONE of these is a property violation: C11 says experiments are never altered,
+    so an operation that changes sample / treatments / doses / observation values / masks of its INPUT screen, or of a result it
+    returned earlier, violates C11.  Everything else here (plate labels of the input relabelled in place, a reused object answering
+    differently from a fresh one, id / attribute bookkeeping of results -- C01's subject) is outside the text of C11 / C13: tie."""
     op = case["op"]
-    fail = lambda what, obs, req: res.fail(what, case, obs, req, signature="%s:%s:%s" % (prop, op, what))
     for what, detail in o.history:
-        fail(what, detail, "input untouched; results independent of later calls; reused object == fresh object")
+        touched = detail if isinstance(detail, list) else []
+        if prop == "C11" and any(k in EXPERIMENT_ATTRS for k in touched) and "reused" not in what:
+            res.fail(what, case, touched, "experiments (sample, treatments, doses, observation value, mask) are never altered",
+                     signature="%s:%s:%s" % (prop, op, what))
+        else:
+            tie(res, prop, case, what, detail)
     if o.err is not None or o.out is None:
         return
     outs = o.out if isinstance(o.out, tuple) else (o.out,)
     raw = case["raw"]
     for t in outs:
         n = int(t.size)
-        # attribute completeness: the per-row arrays are found by introspection, every one of them is judged
+        # attribute completeness: the per-row arrays are found by introspection, every one of them is looked at
         for k, v in vars(t).items():
             if isinstance(v, np.ndarray) and v.ndim >= 1 and k not in PER_ROW:
-                fail("result screen carries an array attribute no oracle looks at", k, list(PER_ROW))
+                tie(res, prop, case, "result screen carries an array attribute no oracle looks at", k)
         for k in PER_ROW:
             v = getattr(t, k, None)
             if not isinstance(v, np.ndarray) or v.shape[0] != n:
-                fail("per-row attribute missing or of the wrong length", {k: None if v is None else list(np.shape(v))}, n)
+                tie(res, prop, case, "per-row attribute missing or of the wrong length", {k: None if v is None else list(np.shape(v))})
                 return
-        # ids are consistent with the names they stand for (plate ids are re-encoded by Plate.merge)
         for ids, names, lab in ((t._plate_ids, t.plate_names, "plate"), (t._sample_ids, t._sample_names, "sample")):
             pairs = set((int(i), str(x)) for i, x in zip(ids, names))
             if not (len(pairs) == len(set(i for i, _ in pairs)) == len(set(x for _, x in pairs))):
-                fail("%s ids of the result do not correspond one-to-one to %s names" % (lab, lab), sorted(pairs)[:6], "bijection")
+                tie(res, prop, case, "%s ids of the result do not correspond one-to-one to %s names" % (lab, lab), sorted(pairs)[:6])
         tp = set()
+        bad = False
         for i in range(n):
             for k in range(t._treatment_ids.shape[1]):
                 tid, nm, d = int(t._treatment_ids[i][k]), str(t._treatment_names[i][k]), float(t._treatment_doses[i][k])
                 if (tid == -1) != is_control(raw, nm, d):
-                    fail("control sentinel of the result does not match (name, dose)", {"id": tid, "name": nm, "dose": d}, "-1 iff control")
-                    return
+                    bad = True
                 if tid != -1:
                     tp.add((tid, nm, d))
-        if not (len(tp) == len(set(x[0] for x in tp)) == len(set(x[1:] for x in tp))):
-            fail("treatment ids of the result do not correspond one-to-one to (name, dose)", sorted(tp)[:6], "bijection")
+        if bad or not (len(tp) == len(set(x[0] for x in tp)) == len(set(x[1:] for x in tp))):
+            tie(res, prop, case, "treatment ids of the result do not correspond to (name, dose)", sorted(tp)[:6])
 
 
 # ------------------------------------------------------------------ C11 oracles
@@ -1203,11 +1300,9 @@ def oracles_c11(res, case, o):
     if op in ("cover", "combofilter"):
         t = o.out
         if op == "cover":
-            if rows(t) != rows(s):
-                fail("initial-plate generation changed the experiments", None, "same rows in the same order")
-        else:
-            if not sub_multiset(rows(t, plate=True, mask=True), rows(s, plate=True, mask=True)):
-                fail("combination filter output is not a sub-collection of the input", None, "sub-multiset")
+            if Counter(rows(t)) != Counter(rows(s)):     # "generators keep all of them": a multiset statement (row order: tie with the model)
+                fail("initial-plate generation does not keep exactly the input experiments", {"n_out": int(t.size)}, {"n_in": int(s.size)})
+        # the combination filter is not a subject of C11's text (C13 states which rows it keeps): model tie only
         return
     t = o.out
     obs_in = [r for r in rows(s, plate=True, mask=True) if r[-1]]
@@ -1216,7 +1311,7 @@ def oracles_c11(res, case, o):
         fail("observed part is not carried through unchanged and observed", {"n_out": len(obs_out)}, {"n_in": len(obs_in)})
     un_in = [r[:-1] for r in rows(s, mask=True) if not r[-1]]
     un_out = [r[:-1] for r in rows(t, mask=True) if not r[-1]]
-    if op in GENERATORS or op in MERGES:
+    if op in GENERATORS:      # "generators keep all of them, smoothers keep a sub-collection" (that merging drops nothing: model tie)
         if Counter(un_in) != Counter(un_out):
             fail("unobserved experiments are not conserved", {"n_out": len(un_out)}, {"n_in": len(un_in)})
     else:
@@ -1275,20 +1370,19 @@ def oracles_c13(res, case, o):
                 fail("initial plate observes no experiment of a treatment", int(tid), ">= 1")
         if len(up_out) > 1:
             fail("unobserved remainder is not a single plate", sorted(up_out), "one plate")
-        if len(set(str(x) for x in t.plate_names[m])) > 1:
-            fail("initial plate is not one plate", sorted(set(str(x) for x in t.plate_names[m])), "one plate")
+        if len(set(str(x) for x in t.plate_names[m])) > 1:      # not stated by the text (only the remainder is "one unobserved plate")
+            tie(res, "C13", case, "initial plate is not one plate", sorted(set(str(x) for x in t.plate_names[m])))
     if op == "combofilter":
         ref = combo_reference(case["raw"])
-        want = [r for r, k in zip(rows(s, plate=True, mask=True), ref) if k]
-        if rows(t, plate=True, mask=True) != want:
+        want = [r for r, k in zip(rows(s), ref) if k]
+        if Counter(rows(t)) != Counter(want):       # "keeps exactly the experiments ...": which experiments, not their order / labels
             fail("combination filter keeps the wrong experiments", {"kept": int(t.size)}, {"should_keep": len(want)})
     if op == "sm-fixed" and up_in:
         k = p["k"]
         if any(x != k for x in sizes_out):
             fail("fixed-size smoothing leaves a plate of another size", sizes_out, k)
-        elif k > 0 and len(sizes_out) != sum(1 for x in sizes_in if x >= k):
-            fail("fixed-size smoothing drops a plate that is large enough", {"plates_out": len(sizes_out), "sizes_in": sizes_in},
-                 sum(1 for x in sizes_in if x >= k))
+        elif k > 0 and len(sizes_out) != sum(1 for x in sizes_in if x >= k):    # the text only demands one common size
+            tie(res, "C13", case, "fixed-size smoothing drops a plate that is large enough", {"plates_out": len(sizes_out), "sizes_in": sizes_in})
     if op == "sm-opt" and up_in:
         if len(set(sizes_out)) > 1:
             fail("optimal-size smoothing leaves plates of different sizes", sizes_out, "one common size")
@@ -1306,8 +1400,8 @@ def oracles_c13(res, case, o):
             pin = plates_by_sample(s)
             pout = plates_by_sample(t)
             for smp, szs in pin.items():
-                if len(szs) >= k and pout.get(smp) != szs:
-                    fail("a sample with enough plates lost experiments", {"sample": smp, "in": szs, "out": pout.get(smp)}, szs)
+                if len(szs) >= k and pout.get(smp) != szs:      # the text only demands that no sample is left with fewer plates
+                    tie(res, "C13", case, "a sample with enough plates lost experiments", {"sample": smp, "in": szs, "out": pout.get(smp)})
     if op in MERGES and up_in:
         # merging only coarsens the plate partition, within one sample
         un_idx_in = [i for i in range(s.size) if not s.observation_mask[i]]
@@ -1318,8 +1412,8 @@ def oracles_c13(res, case, o):
             smp = [str(s.sample_names[i]) for i in un_idx_in]
             img = {}
             for a, b in zip(pin, pout):
-                if img.setdefault(a, b) != b:
-                    fail("a plate was split by a merge smoother", a, "plates only merge")
+                if img.setdefault(a, b) != b:       # the text speaks about which plates are MERGED only
+                    tie(res, "C13", case, "a plate was split by a merge smoother", a)
                     break
             srcs, samp = {}, {}
             for a, b, x in zip(pin, pout, smp):
@@ -1455,6 +1549,18 @@ def class_counters(res, case, o, fam):
     if case.get("hist") is not None and ret:
         res.count("class.object-reuse: op(other screen); op(input); op(input) on ONE object == fresh object")
         res.count("class.aliasing: judged result bit-identical after later calls")
+    if case.get("hist") is not None and ret:
+        res.count("class.reuse-different-seed: op(x, seed') then op(x, seed) on ONE object == fresh op(x, seed) in output, draw trace, generator state")
+    if case.get("temps") and ret and o.address_reused:
+        res.count("class.temporaries: the judged input screen got the ADDRESS of an earlier temporary (id() collision observed)")
+    if case.get("temps") and ret:
+        res.count("class.temporaries: same object on 5 same-size temporary screens, then on the input as a temporary")
+    if ret and o.inp.size >= 257:
+        res.count("class.int-width: screen of >= 257 rows")
+    if ret and op in GENERATORS and len(unobs_plates(o.out)) >= 128:
+        res.count("class.int-width: >= 128 generated plates" + (" (>= 256)" if len(unobs_plates(o.out)) >= 256 else ""))
+    if ret and isinstance(o.out, tuple) and any(len(v) in (255, 256, 257) for v in unobs_plates(o.inp).values()):
+        res.count("class.int-width: hold-out from a plate of 255/256/257 rows")
     if case.get("layout") and ret:
         res.count("class.memory-layout: " + case["layout"])
     if ret and any(len(x) >= 25 for x in raw["pnames"]):
@@ -1532,7 +1638,7 @@ def run_property(ctx, res, prop, oracle, rule, extra_stream=None):
     res.rule = rule
     rng = ctx.subrng(prop, "prep")
     frng = ctx.subrng(prop, "flags")
-    per_op = ctx.scale(41, 540, 200)
+    per_op = ctx.scale(37, 540, 200)
     todo = []
     for op in OPS:
         for j in range(per_op):
@@ -1604,12 +1710,25 @@ def run_property(ctx, res, prop, oracle, rule, extra_stream=None):
         else:
             for (c, d), g in zip(xp, got):
                 res.count("class.cross-process: cases repeated in another interpreter with another PYTHONHASHSEED")
-                if g != d:
-                    c2 = dict(c, xproc=hs)
-                    res.fail("the result depends on PYTHONHASHSEED (same screen, parameters and generator seed in another interpreter)", c2,
-                             g, d, signature="%s:%s:hashseed" % (prop, c["op"]))
+                if g != d:      # not a clause of C11 / C13 (both quantify over all draws): broken tie -- the replay of a case would not be reproducible
+                    tie(res, prop, dict(c, xproc=hs), "the result depends on PYTHONHASHSEED (same screen, parameters and generator seed in another interpreter)", [g, d])
     if extra_stream is not None:
         extra_stream(ctx, res, prop, lines, expect, cases)
+    if res.oracle_failures and ctx.mode != "replay":
+        # put a failure whose case reproduces on its own first (check.py writes the FIRST failure as the replay file); failures that
+        # need state left behind by other cases (identity-keyed memo) may not reproduce in a fresh process
+        from vlib.common import Result as _R
+        for i, f in enumerate(res.oracle_failures[:12]):
+            if f["case"].get("op") == "pipeline":
+                break
+            r2 = _R()
+            try:
+                replay_property(ctx, f["case"], r2, oracle, prop)
+            except Exception:
+                continue
+            if r2.oracle_failures:
+                res.oracle_failures.insert(0, res.oracle_failures.pop(i))
+                break
     if ctx.driver is not None:
         got = ctx.driver.ask(lines)
         for l, e, g, c in zip(lines, expect, got, cases):
@@ -1619,14 +1738,14 @@ def run_property(ctx, res, prop, oracle, rule, extra_stream=None):
 
 
 def replay_property(ctx, case, res, oracle, prop=None):
-    o = execute(case)
-    oracle(res, case, o)
-    oracle_common(res, case, o, prop or ctx.prop)
-    if case.get("xproc") is not None:
-        got = xproc_digests([case], case["xproc"])
-        if got is not None and got[0] != digest(case, o):
-            res.fail("the result depends on PYTHONHASHSEED (same screen, parameters and generator seed in another interpreter)", case,
-                     got[0], digest(case, o), signature="%s:%s:hashseed" % (prop or ctx.prop, case["op"]))
+    # the case is re-executed up to eight times in this process: a failure that needs state left behind by earlier calls
+    # (module-level memo, identity-keyed cache hitting a recycled address) shows from the second execution on
+    for _ in range(8):
+        o = execute(case)
+        oracle(res, case, o)
+        oracle_common(res, case, o, prop or ctx.prop)
+        if res.oracle_failures:
+            break
 
 
 if __name__ == "__main__":
